@@ -288,6 +288,39 @@ class Gen:
             self.line(who, text)
         return True
 
+    def restricted_join(self):
+        """a channel operator sets a random combination of +i / +k / +b (on the joiner) / +x, maybe invites the
+        joiner, then the joiner tries to JOIN with a right, wrong or missing key"""
+        r = self.rng
+        cands = [(c, sid) for c, sid in self.chanop.items() if sid in self.sessions and "," not in c]
+        joiners = [sid for sid, x in self.sessions.items() if x.get("registered") and not x.get("server")]
+        if not cands or len(joiners) < 2:
+            return False
+        c, op = r.choice(cands)
+        j = r.choice([x for x in joiners if x != op] or joiners)
+        key = r.choice([k for k in KEYS if k and "," not in k])
+        if r.random() < 0.5:
+            self.line(j, "PART " + c)
+        if r.random() < 0.6:
+            self.line(op, "MODE %s +i" % c)
+        haskey = r.random() < 0.5
+        if haskey:
+            self.line(op, "MODE %s +k %s" % (c, key))
+        if r.random() < 0.5:
+            self.line(op, "MODE %s +b %s" % (c, r.choice(["*!*@robust/0x%x" % j, "%s!*@*" % (self.sessions[j].get("nick") or "x"), "*!*@*"])))
+        if r.random() < 0.15:
+            self.line(op, "MODE %s +x" % c)
+        if r.random() < 0.6:
+            self.line(op, "INVITE %s %s" % (self.sessions[j].get("nick") or "nobody", c))
+        self.line(j, "JOIN %s%s" % (c, r.choice(["", " " + key, " wrong"])))
+        if r.random() < 0.5:
+            self.line(j, "JOIN %s %s" % (c, key))      # second attempt: invitations are single use
+        self.line(r.choice([op, j]), "NAMES " + c)
+        if r.random() < 0.7:
+            self.line(op, "MODE %s -i-k %s" % (c, key))
+        self.count("restricted_join")
+        return True
+
     def priv_action(self):
         """a privileged command issued by a session that really holds the privilege"""
         r = self.rng
@@ -415,6 +448,8 @@ class Gen:
             elif x < 0.40 and self.priv_action():
                 pass
             elif x < 0.43 and self.case_nick():
+                pass
+            elif x < 0.46 and self.restricted_join():
                 pass
             else:
                 self.client_line(r.choice(live))
